@@ -62,6 +62,9 @@ def run(ck: Checker):
         from .c04 import check_onboarding
 
         check_onboarding(ck, 'C04-11')  # the thread that feeds the first process stage survives an input that cannot be pickled
+        from .c04 import check_containment
+
+        check_containment(ck, 'C04-1')  # a failing preprocess / call becomes that request's answer; the service loops go on
         c09.check_queue_locks(ck, 'C09-7')
         c09.check_batch_returned(ck, 'C09-7', ck.repo.func(WORKER, 'Worker._get_input_batch'))
 
